@@ -3,6 +3,7 @@
 # tests still pass with it, (3) the demonstration fails with it, (4) the demonstration passes without it.
 # usage: tools/confirm_seeds.sh <scratch worktree> <seed dir>...      writes <seed dir>/confirm.json
 WT=$1; shift
+LOG=/tmp/confirm_demo_$(basename $WT).log
 export CARGO_NET_OFFLINE=true
 for d in "$@"; do
   cd $WT && git checkout -q -- . && git clean -fdq -- crates
@@ -16,14 +17,18 @@ for d in "$@"; do
   demo_with="n/a"; demo_without="n/a"
   if [ -f $d/demo.rs ]; then
     cp $d/demo.rs crates/svgbob/tests/zz_seed_demo.rs
-    if cargo test -p svgbob --offline --test zz_seed_demo >/tmp/confirm_demo.log 2>&1; then demo_with=pass; else demo_with=fail; fi
+    if cargo test -p svgbob --offline --test zz_seed_demo >$LOG 2>&1; then demo_with=pass; else demo_with=fail; fi
     git checkout -q -- . ; cp $d/demo.rs crates/svgbob/tests/zz_seed_demo.rs
-    if cargo test -p svgbob --offline --test zz_seed_demo >/tmp/confirm_demo.log 2>&1; then demo_without=pass; else demo_without=fail; fi
+    if cargo test -p svgbob --offline --test zz_seed_demo >$LOG 2>&1; then demo_without=pass; else demo_without=fail; fi
     rm -f crates/svgbob/tests/zz_seed_demo.rs
-  elif [ -f $d/demo.py ]; then
-    if python3 $d/demo.py $WT >/tmp/confirm_demo.log 2>&1; then demo_with=pass; else demo_with=fail; fi
+  elif [ -f $d/demo.sh ]; then
+    if bash $d/demo.sh $WT >$LOG 2>&1; then demo_with=pass; else demo_with=fail; fi
     git checkout -q -- .
-    if python3 $d/demo.py $WT >/tmp/confirm_demo.log 2>&1; then demo_without=pass; else demo_without=fail; fi
+    if bash $d/demo.sh $WT >$LOG 2>&1; then demo_without=pass; else demo_without=fail; fi
+  elif [ -f $d/demo.py ]; then
+    if python3 $d/demo.py $WT >$LOG 2>&1; then demo_with=pass; else demo_with=fail; fi
+    git checkout -q -- .
+    if python3 $d/demo.py $WT >$LOG 2>&1; then demo_without=pass; else demo_without=fail; fi
   fi
   git checkout -q -- . ; git clean -fdq -- crates
   echo "{\"applies\": true, \"suite_passed\": $passed, \"suite_failed\": $failed, \"demo_with_patch\": \"$demo_with\", \"demo_without_patch\": \"$demo_without\"}" > $d/confirm.json
